@@ -332,8 +332,8 @@ def lowerAny (e : Env) (s : Str) : R Str := if isAscii s then pure (lower s) els
 
 /-- `URL.build(...)` -/
 def build (e : Env) (a : BuildArgs) : R Url := do
+  -- `port is not None` (fix: a port of 0 is a port — before, both checks tested the truthiness of `port`)
   let portTruthy := match a.portKind, a.port with
-    | 0, some p => p ≠ 0
     | 0, none => false
     | _, _ => true
   if !a.authority.isEmpty && (a.user.any (!·.isEmpty) || a.password.any (!·.isEmpty) || !a.host.isEmpty || portTruthy) then
